@@ -236,6 +236,20 @@ CHECKS = {
         "Standard Avro reader = fastavro; one listed known finding (a refused record corrupts the block buffer).",
         "DESIGN.md 4/C19",
     ),
+    "C20": (
+        "exploration",
+        "property-based testing of three text writers against independently assembled renderings and a standard CSV "
+        "parse; CSV reader round trip over sniffable files",
+        "Generated records over all field types (cells with delimiters, quotes, CR/LF, NUL, unicode, surrogate "
+        "escapes) are written by the CSV, line and text writers under generated options (fields, exclude, "
+        "lineterminator, verbose, format templates with {field}, {field:spec}, {missing}); csv.reader must recover "
+        "header and cells exactly per descriptor run, the line and text output must equal /verif's own rendering byte "
+        "for byte, and no writer may raise for a valid record; stdlib-written CSV files with a sniffable delimiter "
+        "must read back with the same text values.",
+        "Text form = str()/format() of the field value; one listed known finding (line break other than the "
+        "configured terminator is not quoted).",
+        "DESIGN.md 4/C20",
+    ),
 }
 
 NOT_APPLICABLE = {}
